@@ -56,6 +56,14 @@ def plan(tier, seed):
             ns = ns + [64]
         b.append({'id': fam_id(f), 'family': f, 'shapes': [[n]*3 for n in ns],
                   'base': [16]*3})
+    if tier == 'quick':
+        # one elongated refinement ladder (up to 80 cells in a direction, a
+        # count that is not a power of two) for two families
+        for f in families():
+            if fam_id(f) in ('F2isof', 'V2trif'):
+                b.append({'id': fam_id(f)+'-nc', 'family': f,
+                          'shapes': [[16, 12, 20], [32, 24, 40], [64, 48, 80]],
+                          'base': [16, 12, 20]})
     if tier == 'thorough':
         for f in families():
             if f['nu'] == 2:
